@@ -162,7 +162,7 @@ def parent_main(args) -> int:
             pass
 
     for k, n in sorted(known_hits.items()):
-        print(f"KNOWN-FINDING: property={args.id} {k}: {known[k]['what']} ({n} cases this run)")
+        print(f"KNOWN-FINDING: property={args.id} {k}: {known[k].get('short') or known[k]['what'][:240]} ({n} cases this run)")
     if errors:
         sys.stderr.write("\n".join(sorted(set(errors))[:2]) + "\n")
         print(f"HARNESS-ERROR property={args.id} ({len(errors)} shard(s)); see stderr")
@@ -189,7 +189,10 @@ def main():
     args = ap.parse_args()
     args.id = args.id.upper()
     if args.shard is not None:
-        sys.exit(shard_main(args))
+        rc = shard_main(args)
+        sys.stdout.flush()
+        sys.stderr.flush()
+        os._exit(rc)  # a leaked non-daemon thread of the code under test must not hang the check
     sys.exit(parent_main(args))
 
 
